@@ -55,6 +55,18 @@ func (cr *concRun) checkBulkResults() {
 				continue
 			}
 			excused := false
+			ownSupplied := false
+			for _, l := range cr.r.Loads {
+				if l.Op == h.Op && l.Outcome == "val" {
+					if _, ok := l.Ret[k]; ok {
+						ownSupplied = true
+					}
+				}
+			}
+			if ownSupplied {
+				cr.fail(P("C10"), "bulk.result-missing-supplied", k, "BulkGet(%v) by task %d ([%d,%d]) returned without error and without the requested key %d although its own loader call supplied a value for that key", h.Op.Ks, h.Task, h.Call, h.Ret, k)
+				continue
+			}
 			for _, l := range cr.r.Loads {
 				// the call stays registered (and joinable) until its owner has applied the outcome
 				if l.Enter >= h.Ret || cr.loadInstallEnd(l) <= h.Call {
